@@ -567,7 +567,11 @@ def _execute(scn, scared):
     with env.clock(clock), env.memory(env.SimMemory()):
         for j, (samples, pt) in enumerate(sets):
             ths = make_ths(storage, samples, {'plaintext': pt}, 'set%d' % j)
-            container = scared.Container(ths, frame=np_frame(scn['frame']), preprocesses=(pps[0] if (len(pps) == 1 and scn['seed'] % 3 == 0) else list(pps)))
+            if not pps and scn['seed'] % 2 == 0:
+                # defaults left to the library (a mutable default shared between Container objects would show here)
+                container = scared.Container(ths, frame=np_frame(scn['frame'])) if scn['frame'] is not None else scared.Container(ths)
+            else:
+                container = scared.Container(ths, frame=np_frame(scn['frame']), preprocesses=(pps[0] if (len(pps) == 1 and scn['seed'] % 3 == 0) else list(pps)))
             E = expected_matrix(scn, samples)
             D = expected_data(scn, model, pt)
             Hook.sf_calls = 0
